@@ -333,7 +333,11 @@ def dispatch (env : Env) (j : Json) : Json :=
   | some "reader.run" =>
     let C := ctxOf env j
     let R := registryOf (env.schemes.map (·.2))
-    let given := (getStr? j "given").bind (dictGet env.schemes)
+    let given : Option Scheme := match (getStr? j "given").bind (dictGet env.schemes) with
+      | some s => some s
+      | none => match j.getObjVal? "given_norestrict" with
+        | .ok (Json.arr a) => some (noRestrictionsScheme (a.toList.filterMap (fun x => match x with | Json.str s => some s | _ => none)))
+        | _ => none
     match Reader.init C hconsts R (linesOf j "lines") (modeOf j) given with
     | .error e => Json.mkObj [("init_exc", Json.str (errName e))]
     | .ok r =>
